@@ -24,6 +24,7 @@
 -/
 import RtrProofs.AllocOps
 import RtrProofs.AllocSync
+import RtrProofs.AllocStore
 
 namespace Rtr.C18
 open Rtr Rtr.Alloc PfxTable SpkiTable
@@ -625,6 +626,57 @@ theorem sync_no_leak (a : A) (P : PfxTable) (K : SpkiTable) (reset : Bool) (item
   rw [hb0] at this
   rw [this]; omega
 
+/-! ## 5c. the growing PDU stores: a refused reallocation at any growth step, block by block -/
+
+/-- **store_released_exactly_once.**  The three temporary PDU stores grow by `storeIncr`
+    (= `TEMPORARY_PDU_STORE_INCREMENT_VALUE` of the tree under test) elements whenever they are full, by a
+    `realloc` that may be refused.  For EVERY behaviour of the allocator and every answer of the cache
+    (any number of PDUs of any kind, in any order): the store loop — run to its end or stopped by a refused
+    reallocation — followed by the three releases of the `cleanup:` label returns every store block exactly
+    once: no release names a block that is not live (no block returned twice, no foreign block; the old
+    block of a refused `realloc` is still live and is released by the cleanup, by nobody else), and no
+    store block is live afterwards (no leak).  `ledger` follows the blocks of one kind individually — of
+    each store kind at most one is live — where `net` (sync_no_leak) only counts. -/
+theorem store_released_exactly_once (a : A) (items : List Item) (h : ExactlyOnce a.trace) :
+    ExactlyOnce (freeBufs (storeLoop items a {}).2.1 (storeLoop items a {}).2.2).trace :=
+  freeBufs_ledger _ _ (storeLoop_ledger items a {} (fun k => by rw [h k]; cases k <;> rfl))
+
+/-- **sync_store_fail_exact.**  `storeReqs items {}` is the number of reallocations the store loop makes
+    for the answer `items`: one for the first PDU of a kind and one more whenever `storeIncr` further PDUs
+    of that kind have arrived (element storeIncr + 1, 2·storeIncr + 1, … finds its store full).  For every
+    answer — of every length — and EVERY failing allocation index k below that number, for every pair of
+    tables, incremental update or full reload:
+
+    * the synchronisation reports an error (RTR_ERROR, no purge: the next query is what it was),
+    * both tables are EXACTLY what they were (not a single field differs),
+    * exactly one request was refused,
+    * every block obtained during the call has been returned exactly once — the store whose reallocation
+      was refused keeps its old block until the cleanup releases it, once; nothing is released twice,
+      nothing remains allocated. -/
+theorem sync_store_fail_exact (P : PfxTable) (K : SpkiTable) (reset : Bool) (items : List Item) (k : Nat)
+    (hk : k < storeReqs items {}) :
+    (syncF { budget := some k } P K reset items).2.2.2 = ⟨false, false⟩ ∧
+    (syncF { budget := some k } P K reset items).2.1 = P ∧
+    (syncF { budget := some k } P K reset items).2.2.1 = K ∧
+    refusals (syncF { budget := some k } P K reset items).1.trace = 1 ∧
+    net (syncF { budget := some k } P K reset items).1.trace = 0 ∧
+    ExactlyOnce (syncF { budget := some k } P K reset items).1.trace := by
+  obtain ⟨h1, h2⟩ := (storeLoop_req items { budget := some k } {}).2 (hits_some hk)
+  have e : syncF { budget := some k } P K reset items =
+      (freeBufs (storeLoop items { budget := some k } {}).2.1 (storeLoop items { budget := some k } {}).2.2,
+        P, K, ⟨false, false⟩) := by
+    unfold syncF
+    simp [h1]
+  rw [e]
+  refine ⟨rfl, rfl, rfl, ?_, ?_, store_released_exactly_once _ items (fun k => by cases k <;> rfl)⟩
+  · show refusals (freeBufs _ _).trace = 1
+    unfold freeBufs
+    rw [freeIf_refusals, freeIf_refusals, freeIf_refusals, h2]; rfl
+  · show net (freeBufs _ _).trace = 0
+    rw [(freeBufs_ok _ _).1, (storeLoop_ok items { budget := some k } {}).1]
+    have : bufsLive ({} : Bufs) = 0 := rfl
+    rw [this]; simp
+
 /-! ## 6. non-vacuity: concrete states meeting the hypotheses -/
 
 def p1 : Rec := ⟨false, 0x0a000000, 8, 8, 65001, 1⟩
@@ -768,6 +820,30 @@ example : (syncF {} syncP syncK true answer3).2.2.2 = ⟨true, false⟩ ∧
     (syncF {} syncP syncK true answer3).2.1.recs = [o2, x1] ∧
     (syncF { budget := some 3 } syncP syncK true answer3).2.2.2 = ⟨false, false⟩ := by
   refine ⟨by decide +kernel, by decide +kernel, by decide +kernel⟩
+
+-- an answer with more PDUs of one kind than a store holds: `n` announcements of distinct IPv4 prefixes
+def longAnswer (n : Nat) : List Item :=
+  (List.range n).map fun i => Item.p4 true ⟨false, 0x0a000000 + 256 * i, 24, 24, 65001, 0⟩
+
+-- storeIncr PDUs fit into the first block; PDU storeIncr + 1 makes the store grow, PDU 2·storeIncr + 1
+-- again.  The growth request (k = 1) refused: error, the old block — still live — is released once by
+-- the cleanup, the tables are untouched.
+example : storeReqs (longAnswer storeIncr) {} = 1 ∧ storeReqs (longAnswer (storeIncr + 1)) {} = 2 ∧
+    storeReqs (longAnswer (2 * storeIncr + 1)) {} = 3 ∧
+    (syncF { budget := some 1 } syncP syncK false (longAnswer (storeIncr + 1))).1.trace =
+      [.realloc .pdu4 0 storeIncr true, .realloc .pdu4 storeIncr (2 * storeIncr) false, .free .pdu4 storeIncr] ∧
+    (syncF { budget := some 1 } syncP syncK false (longAnswer (storeIncr + 1))).2.2.2 = ⟨false, false⟩ ∧
+    (syncF { budget := some 2 } syncP syncK true (longAnswer (2 * storeIncr + 1))).1.trace =
+      [.realloc .pdu4 0 storeIncr true, .realloc .pdu4 storeIncr (2 * storeIncr) true,
+       .realloc .pdu4 (2 * storeIncr) (3 * storeIncr) false, .free .pdu4 (2 * storeIncr)] := by
+  refine ⟨by decide +kernel, by decide +kernel, by decide +kernel, by decide +kernel, by decide +kernel, by decide +kernel⟩
+
+-- the ledger is not vacuous: a store released by the failing helper AND by the cleanup (one block returned
+-- twice) is rejected although a leak elsewhere could hide it from the net count; so is a store never released
+example : ledger .pdu4 [.realloc .pdu4 0 100 true, .realloc .pdu4 100 200 false, .free .pdu4 100, .free .pdu4 100] 0 = none ∧
+    ledger .pdu4 [.realloc .pdu4 0 100 true, .realloc .pdu4 100 200 false] 0 = some 1 ∧
+    ledger .pdu4 [.realloc .pdu4 0 100 true, .realloc .pdu4 100 200 false, .free .pdu4 100] 0 = some 0 := by decide
+
 
 /-! ## 7. the unfixed code, as kernel-checked witnesses
 
